@@ -51,4 +51,40 @@ def capcStep (st : CapCState) (ts : List String) : CapCState × List String :=
   | [] => (st, [])
   | _ => ({ st with bad := true }, [])
 
+/-! ### suite `forest`: derived queries computed by the model from the REAL storage's raw links -/
+
+structure ForestState where
+  st : Storage := {}
+  active : Bool := false
+
+def parseIdxs (t : String) : List Nat :=
+  let body := ((t.dropWhile (· != '[')).drop 1).toString
+  let body := (body.splitOn "]").headD ""
+  (body.splitOn ",").filterMap String.toNat?
+
+def kvNat (t : String) : Option Nat := ((t.splitOn "=").getD 1 "").toNat?
+
+def forestFlush (st : Storage) : List String :=
+  let sp := (List.range st.spans.length).flatMap fun i =>
+    [s!"Q desc {i} {showIdxs (st.descendants i)}", s!"Q anc {i} {showIdxs (st.ancestors i)}",
+     s!"Q dev {i} {showIdxs (st.descendantEvents i)}"]
+  let ev := (List.range st.events.length).map fun j => s!"Q eanc {j} {showIdxs (st.eventAncestors j)}"
+  sp ++ ev
+
+def forestStep (fs : ForestState) (ts : List String) : ForestState × List String :=
+  match ts with
+  | "F" :: "begin" :: _ => ({ st := {}, active := true }, [" ".intercalate ts])
+  | ["F", "sp", _, par, ch, ev, ff] =>
+    let sp : CapSpan := { mt := 0, values := [], parent := kvNat par,
+                          children := parseIdxs ch, events := parseIdxs ev, follows := parseIdxs ff }
+    ({ fs with st := { fs.st with spans := fs.st.spans ++ [sp] } }, [])
+  | ["F", "evn", _, par] =>
+    let ev : CapEvent := { mt := 0, values := [], parent := kvNat par }
+    ({ fs with st := { fs.st with events := fs.st.events ++ [ev] } }, [])
+  | ["F", "roots", sp, ev] =>
+    ({ fs with st := { fs.st with rootSpans := parseIdxs sp, rootEvents := parseIdxs ev } }, [])
+  | ["F", "end"] => ({}, forestFlush fs.st ++ ["F end"])
+  | "Q" :: _ => (fs, [])
+  | _ => (fs, [])
+
 end Driver
